@@ -286,6 +286,18 @@ func (g *G) design() {
 	for i := 0; i < ns; i++ {
 		g.service(svcScope)
 	}
+	// documentation metadata (drawn after everything else)
+	if g.p.Meta {
+		d.API.Meta = g.docMeta("api")
+		for _, s := range d.Services {
+			s.Meta = g.docMeta("svc")
+			for _, meth := range s.Methods {
+				if meth.HTTP != nil {
+					meth.HTTP.Meta = g.docMeta("ep")
+				}
+			}
+		}
+	}
 }
 
 var typeNames = []string{"Item", "Inner", "Node", "Account", "Point", "Entry", "Opts", "Leaf", "Bottle", "Tree"}
@@ -535,6 +547,33 @@ func (g *G) attr(depth int, self string) *m.Attr {
 		g.meta(a)
 	}
 	return a
+}
+
+// docMeta draws metadata for an API, a service or an HTTP endpoint: several
+// OpenAPI tags (with descriptions), extensions, an operation summary. Sets
+// with several keys are where an order leak (map iteration) would show.
+func (g *G) docMeta(label string) [][]string {
+	t := g.t
+	if !g.p.Meta || rapid.IntRange(0, 2).Draw(t, label+"docmeta") != 0 {
+		return nil
+	}
+	var out [][]string
+	names := rapid.Permutation([]string{"alpha", "beta", "gamma", "delta", "epsilon", "zeta"}).Draw(t, label+"tagnames")
+	n := rapid.IntRange(1, 5).Draw(t, label+"ntags")
+	for _, name := range names[:n] {
+		out = append(out, []string{"openapi:tag:" + name})
+		if rapid.Bool().Draw(t, label+"tagdesc") {
+			out = append(out, []string{"openapi:tag:" + name + ":desc", "about " + name})
+		}
+	}
+	if rapid.Bool().Draw(t, label+"ext") {
+		out = append(out, []string{"openapi:extension:x-" + label, `{"a":1}`})
+	}
+	g.feat("doc-meta")
+	if n >= 2 {
+		g.feat("doc-meta>=2-tags")
+	}
+	return out
 }
 
 func (g *G) meta(a *m.Attr) {
